@@ -16,6 +16,9 @@ def check(chk, thorough=False):
     chk.run('C15.c', 'R-TABLE', 'the authentication decision equals the policy table over all identifier outcomes and requirement settings', lambda ob: c15c(tree, ob), floor=180)
     chk.run('C15.e', 'R-TRUTH', 'the TLS policy enforced is the configured one: the configuration loader hands every setting on as read (an explicit false stays false)', lambda ob: __import__('sa.props.common', fromlist=['config_verbatim']).config_verbatim(tree, ob, 'tcpcl/config.py'), floor=2)
     chk.run('C15.f', 'R-ORDER', 'SESS_INIT leaves only from the contact-negotiation arm, after the TLS decision (start() sends the contact header only) (= C04.b)', lambda ob: __import__('sa.props.c04', fromlist=['c04b']).c04b(tree, ob), floor=3)
+    chk.run('C15.g', 'R-GUARD', 'every TLS peer is asked for its certificate, whatever is required locally: a contradicting certificate identifier is seen (and terminates) also where nothing is required', lambda ob: c15g(tree, ob), floor=1)
+    chk.run('C15.h', 'R-ESCAPE', 'an error raised by the receive handling (a failed TLS policy check among them) is not caught and logged around the receive entry: reading does not go on in the clear', lambda ob: c15h(tree, ob), floor=1)
+    chk.run('C15.i', 'R-FLOW', 'the cleartext-after-contact-header test sees the octets that follow: while a message handler runs, the receive buffer is not an emptied attribute with the rest held elsewhere', lambda ob: c15i(tree, ob), floor=1)
     chk.run('C15.d', 'R-ORDER', 'authentication runs before the session is declared established; a failure terminates with the raised reason', lambda ob: c15d(tree, ob), floor=3)
 
 
@@ -359,6 +362,12 @@ def c15c(tree, ob):
     for key, (cause, rws) in sorted(groups.items()):
         ob.violate(SESS, fv.qual, key, '{} ({} of {} table rows, e.g. ip={} dns={} dns-reference={} node={} require_host={} require_node={})'.format(
             cause, len(rws), rows, *rws[0][:6]), ifnode)
+    match_id_exact(tree, ob)
+
+
+def match_id_exact(tree, ob):
+    ''' the comparison of a reference identifier with those of a certificate (shared by the TLS policy and by the BPSec key
+    lookup) is the exact membership test, and its three outcomes are kept apart. '''
     # tri-state tail of match_id
     fm = FuncView(tree, SESS, 'match_id')
     rets = [x for x in walk_local(fm.func) if isinstance(x, ast.Return)]
@@ -380,6 +389,13 @@ def c15c(tree, ob):
         elif no_ids:
             table['absent'] = src(val)
         else:
+            other = [(t, p) for (t, p) in facts if norm.mentions(t, ['ref_id']) or norm.mentions(t, ['cert_ids'])]
+            if other:
+                # the result depends on a test of the reference against the certificate that is not the plain membership
+                ob.violate(SESS, 'match_id', '{} under {}{}'.format(src(st), '' if other[0][1] else 'not ', other[0][0])[:110], 'whether a certificate identifier matches is decided by something other than '
+                           '"the reference is one of the identifiers of the certificate" (folded, trimmed or partially compared): a certificate issued for another name authenticates this one -- '
+                           'for a TLS peer, and for the security source of a signed bundle', st, sure=True)
+                return
             raise AnalysisError('C15.c: unrecognised assignment of the match result: ' + src(st))
     # whether the certificate carries identifiers of the kind is decided from the certificate alone, never from the reference:
     # an empty / absent reference with identifiers present must come out as "mismatch" (False), not "absent" (None)
@@ -395,6 +411,7 @@ def c15c(tree, ob):
         ob.violate(SESS, 'match_id', 'result table {}'.format(table), 'match_id does not return (matched id / False when names present but none equal / None when no names): {}'.format(table), fm.func)
     else:
         ob.note('match_id tail: present&equal -> id, present&unequal -> False, absent -> None')
+
 
 
 def funnel_order(tree, ob):
@@ -465,3 +482,83 @@ def c15d(tree, ob):
         ob.violate(SESS, fv.qual, 'except TerminateError', 'termination does not carry the raised reason', h)
     else:
         ob.site(SESS, terms[0], 'TerminateError -> SESS_TERM(reason)')
+
+
+def c15g(tree, ob):
+    ''' the identifier table is decided over what the peer's certificate SAYS; for that the certificate has to be asked for.
+    The context asks every peer for a certificate (CERT_OPTIONAL) whatever the local requirements are: "a certificate
+    identifier that contradicts the announced node ID terminates the session" holds also where nothing is required. '''
+    CONF = 'tcpcl/config.py'
+    fv = FuncView(tree, CONF, 'Config.get_ssl_context')
+    sets = [n for n in walk_local(fv.func) if isinstance(n, ast.Assign) and len(n.targets) == 1 and isinstance(n.targets[0], ast.Attribute) and n.targets[0].attr == 'verify_mode']
+    ob.require(sets, 'verify_mode is set in get_ssl_context')
+    for st in sets:
+        v = src(st.value)
+        if v not in ('ssl.CERT_OPTIONAL', 'ssl.CERT_REQUIRED'):
+            ob.violate(CONF, fv.qual, src(st), 'the TLS context does not ask the peer for a certificate on this way: a listening node never sees a certificate whose identifier contradicts the announced '
+                       'node ID and establishes instead of terminating with contact-failure', st, sure=True)
+        else:
+            ob.site(CONF, st, 'the peer is always asked for its certificate')
+    rets = [r for r in walk_local(fv.func) if isinstance(r, ast.Return) and r.value is not None and not (isinstance(r.value, ast.Constant) and r.value.value is None)]
+    for r in rets:
+        if not fv.cfg.must_pass(fv.cfg.entry, fv.node(r), {fv.node(s_) for s_ in sets if src(s_.value) in ('ssl.CERT_OPTIONAL', 'ssl.CERT_REQUIRED')}, include_exc=False)[0]:
+            ob.violate(CONF, fv.qual, src(r), 'a TLS context is returned that was not told to ask the peer for a certificate', r)
+
+
+def c15h(tree, ob):
+    ''' the policy checks of the receive path speak by raising (a TLS context that cannot be built, a refused certificate,
+    "unsecured data before the handshake"): the error ends the connection's reading.  A broad handler around the receive
+    entry that logs and carries on turns each of them into "continue in the clear". '''
+    from ..cfg import handler_names
+    n = 0
+    for qual in ('Connection._rx_proxy', 'Connection._avail_rx_notls', 'Connection._avail_rx_tls', 'Connection._conn_rx_proxy'):
+        if not tree.has_func(SESS, qual):
+            continue
+        func = tree.func(SESS, qual)
+        for c in [x for x in calls_in(func) if isinstance(x.func, ast.Attribute) and x.func.attr in ('recv_raw', '_rx_proxy') and src(x.func.value) == 'self']:
+            n += 1
+            cur = getattr(c, '_parent', None)
+            prev = c
+            bad = None
+            while cur is not None and cur is not func:
+                if isinstance(cur, ast.Try) and any(prev is st or any(prev is y for y in ast.walk(st)) for st in cur.body):
+                    for h in cur.handlers:
+                        names = [(nm or 'BaseException').split('.')[-1] for nm in handler_names(h)]
+                        broad = any(nm in ('Exception', 'BaseException') for nm in names)
+                        ends = any(isinstance(y, ast.Raise) for y in ast.walk(h)) or any(isinstance(y, ast.Call) and isinstance(y.func, ast.Attribute) and y.func.attr in ('close', '_close', 'abort') for y in ast.walk(h))
+                        if broad and not ends:
+                            bad = h
+                prev = cur
+                cur = getattr(cur, '_parent', None)
+            if bad is not None:
+                ob.violate(SESS, qual, 'except {}: (log) around {}'.format('/'.join(handler_names(bad)) or 'BaseException', src(c)), 'an error raised while received octets are handled is logged and reading goes on: '
+                           'a failed TLS policy check (context cannot be built, handshake skipped by the peer) no longer stops the contact, the session continues in the clear', bad, sure=True)
+            else:
+                ob.site(SESS, c, qual + ': an error of the receive handling is not swallowed')
+    ob.require(n >= 1, 'receive entry calls')
+
+
+def c15i(tree, ob):
+    ''' "nothing in the clear may follow the contact header" is tested by the handler of the contact header on the receive
+    buffer.  The test sees something only if the buffer, while a handler runs, holds the octets that follow the message being
+    handled.  A receive loop that works on a private copy and leaves the attribute empty meanwhile blinds it: a SESS_INIT in
+    the clear, pipelined behind the contact header, is accepted as the first message of the secured session. '''
+    fv = FuncView(tree, SESS, 'Messenger.recv_raw')
+    hands = [c for c in method_calls(fv.func, 'recv_message', 'self')]
+    h = one(hands, 'hand-over to recv_message in recv_raw', ob)
+    stores = [n for n in fv.cfg.nodes if n.kind == 'stmt' and isinstance(n.ast, (ast.Assign, ast.AugAssign))
+              and any(self_attr(t) == '__rx_buf' for t in (n.ast.targets if isinstance(n.ast, ast.Assign) else [n.ast.target]))]
+    ob.require(stores, 'writes of the receive buffer in recv_raw')
+    hn = fv.node(h)
+    bad = []
+    for s_ in stores:
+        if not (isinstance(s_.ast, ast.Assign) and isinstance(s_.ast.value, ast.Constant) and s_.ast.value.value in (b'', '')):
+            continue
+        others = [x for x in stores if x is not s_]
+        if hn in fv.cfg.reachable([s_], avoid=others):
+            bad.append(s_)
+    if bad:
+        ob.violate(SESS, fv.qual, '{}  ... {}'.format(bad[0].text()[:40], src(h)[:40]), 'a message handler can run while the receive buffer attribute is empty although octets are still waiting (they are held in a local): '
+                   'the "unsecured data before the TLS handshake" test of the contact-header handler sees nothing, a cleartext SESS_INIT pipelined behind the contact header is accepted', bad[0].ast, sure=True)
+    else:
+        ob.site(SESS, h, 'while a handler runs the receive buffer holds what follows the message')
